@@ -12,7 +12,7 @@ type M = hpke::kem::ToyKemLin;
 const CT: usize = 5;
 const AD: usize = 3;
 
-//@h name=c05_l1_open_in_place_step tier=quick mode=func timeout=600 desc="one open_in_place_detached step from an arbitrary receiver state with an arbitrary AEAD verdict: exhausted => MessageLimitReached, AEAD not called, buffer and state untouched; AEAD rejects => OpenError, (seq, overflowed) unchanged; AEAD accepts => Ok, counter +1 or latch at 2^64-1; the nonce offered is base_nonce XOR BE64(seq); key/aad/ciphertext/tag passed unchanged" bounds="key, base nonce, seq (64 bit), overflowed, tag, verdict symbolic; ciphertext 0..=5 B, aad 0..=3 B; unwind 20"
+//@h name=c05_l1_open_in_place_step tier=quick mode=func also=C06,C14 timeout=600 desc="one open_in_place_detached step from an arbitrary receiver state with an arbitrary AEAD verdict: exhausted => MessageLimitReached, AEAD not called, buffer and state untouched; AEAD rejects => OpenError, (seq, overflowed) unchanged; AEAD accepts => Ok, counter +1 or latch at 2^64-1; the nonce offered is base_nonce XOR BE64(seq); key/aad/ciphertext/tag passed unchanged" bounds="key, base nonce, seq (64 bit), overflowed, tag, verdict symbolic; ciphertext 0..=5 B, aad 0..=3 B; unwind 20"
 #[kani::proof]
 #[kani::unwind(20)]
 #[kani::stub(zeroize::optimization_barrier, noop_barrier)]
@@ -68,7 +68,7 @@ pub fn c05_l1_open_in_place_step() {
 
 const CTA: usize = 20;
 
-//@h name=c05_l1_open_alloc_step tier=quick mode=full timeout=1200 desc="one step of the allocating open() for every ciphertext length around the tag length: exhausted => MessageLimitReached whatever the input (including inputs shorter than a tag); len < Nt => OpenError with state unchanged and the AEAD not called; otherwise split = (input[..len-16], input[len-16..]) handed unchanged to the AEAD and the verdict decides OpenError/Ok exactly as in the in-place form; all default Kani checks on (no panic)" bounds="state fully symbolic; input length 0..=20 (Nt=16), aad 0..=3 B; unwind 20"
+//@h name=c05_l1_open_alloc_step tier=quick mode=full also=C13,C14,C06 timeout=1200 desc="one step of the allocating open() for every ciphertext length around the tag length: exhausted => MessageLimitReached whatever the input (including inputs shorter than a tag); len < Nt => OpenError with state unchanged and the AEAD not called; otherwise split = (input[..len-16], input[len-16..]) handed unchanged to the AEAD and the verdict decides OpenError/Ok exactly as in the in-place form; all default Kani checks on (no panic)" bounds="state fully symbolic; input length 0..=20 (Nt=16), aad 0..=3 B; unwind 20"
 #[kani::proof]
 #[kani::unwind(20)]
 #[kani::stub(zeroize::optimization_barrier, noop_barrier)]
